@@ -544,6 +544,29 @@ pub fn check_special_values(data: &[u8], kind: u64) -> R {
         }
         same_bytes("never", &format!("{name} after a value whose Display fails"), &s.into_inner(), &want)?;
     }
+    // (1b) single characters as arguments and as fill (the formatter hands them over through write_char), of every
+    // UTF-8 length, in every mode
+    {
+        let chars: [char; 6] = ['x', '\u{b0}', '\u{e9}', '\u{ff}', '\u{20ac}', '\u{1f600}'];
+        let c = chars[(kind % 6) as usize];
+        let d = chars[((kind + 1) % 6) as usize];
+        let mut plain: Vec<u8> = vec![];
+        let _ = write!(plain, "{c}{a}{d:?}{:\u{b7}>6}|{:\u{e9}<5}|{d}", "ab", 7);
+        let mut strip = StripStream::new(Vec::new());
+        let _ = write!(strip, "{c}{a}{d:?}{:\u{b7}>6}|{:\u{e9}<5}|{d}", "ab", 7);
+        let stripped = strip.into_inner();
+        for (name, mut s, want) in [
+            ("always_ansi()", AutoStream::always_ansi(Vec::new()), &plain),
+            ("new(Always)", AutoStream::new(Vec::new(), ColorChoice::Always), &plain),
+            ("never()", AutoStream::never(Vec::new()), &stripped),
+        ] {
+            let r = write!(s, "{c}{a}{d:?}{:\u{b7}>6}|{:\u{e9}<5}|{d}", "ab", 7);
+            let got = s.into_inner();
+            if r.is_err() || &got != want {
+                return Err(("c08:char-arguments:bytes".into(), format!("{name}: a formatted write with character arguments and fill characters ({c:?}, {d:?}) delivered {:?}, expected {:?}", show(&got[..got.len().min(80)]), show(&want[..want.len().min(80)]))));
+            }
+        }
+    }
     // (2)
     let size = [1023usize, 1024, 1025, 4095, 4096, 4097, 8191, 8192, 8193, 65536][(kind % 10) as usize];
     let body: String = text.chars().filter(|c| !c.is_control()).cycle().take(size.max(1)).collect::<String>();
